@@ -101,6 +101,9 @@ def gen_program(r, shape=None):
     nregs = r.choice([2, 3, 4, 4, 4])
     regs = REGS[:nregs]
     mems = MEMS[:r.choice([1, 2, 2])]
+    if r.random() < 0.15:
+        # a memory space named like a register: the two name spaces are independent
+        mems = [r.choice(regs)] + mems[1:]
     pspecial = r.choice([0.0, 0.0, 0.08, 0.2])
     pmemord = r.choice([0.0, 0.0, 0.1, 0.25])
     pipft = r.choice([0.0, 0.0, 0.1, 0.25])
